@@ -231,10 +231,10 @@ func vfRunTransfer(t *testing.T, spec *vfSpec, res *vfRes, o vfXferOpts) *vfXfer
 			time.Sleep(o.extraSettle)
 		}
 		sim.quiesce()
+		vfFinalAccounting(sim, w, out.drained)
 		if o.beforeTeardown != nil {
 			o.beforeTeardown(sim, w)
 		}
-		vfFinalAccounting(sim, w, out.drained)
 		sim.teardown()
 		w.waitReaders(10 * time.Second)
 		sim.finalLeakCheck()
@@ -308,7 +308,11 @@ func vfFinalAccounting(sim *vfSim, w *vfWork, drained bool) {
 			continue
 		}
 		if n := ws.BufferedAmount(); n != 0 {
-			res.violate("C15", "final/stream-buffered", "dir %d stream %d: Stream.BufferedAmount = %d after everything was acknowledged", r.cfg.Dir, r.cfg.SID, n)
+			if vfStreamDetached(sim.getAssoc(r.wside), ws) {
+				res.violate("C15", "final/stream-buffered/after-inbound-reset", "dir %d stream %d: Stream.BufferedAmount = %d after everything was acknowledged; the stream had been unregistered by the peer's reset of its direction before the acknowledgement arrived", r.cfg.Dir, r.cfg.SID, n)
+			} else {
+				res.violate("C15", "final/stream-buffered", "dir %d stream %d: Stream.BufferedAmount = %d after everything was acknowledged", r.cfg.Dir, r.cfg.SID, n)
+			}
 		}
 		res.count("c15_final_stream_checked", 1)
 	}
@@ -478,4 +482,15 @@ func vfDescribeReassembly(r *reassemblyQueue) string {
 	}
 
 	return out + "}"
+}
+
+// vfStreamDetached: the association no longer has this Stream object registered under its identifier.
+func vfStreamDetached(a *Association, s *Stream) bool {
+	if a == nil || s == nil {
+		return false
+	}
+	a.lock.RLock()
+	defer a.lock.RUnlock()
+
+	return a.streams[s.streamIdentifier] != s
 }
